@@ -7,7 +7,7 @@ use crate::model::ops::MOp::{self, *};
 use crate::model::ops::N_OPS;
 use crate::model::vm::{ErrClass, RunResult};
 use crate::props::c08::program_case;
-use crate::real::{class_matches, run_exec, run_model, ExecCase};
+use crate::real::{class_matches, run_exec, run_model, run_model_calls, ExecCase};
 use crate::{ensure, viol};
 use proptest::prelude::*;
 
@@ -15,7 +15,7 @@ const BUDGET: u64 = 30_000;
 const CAP: i64 = 64;
 
 pub fn oracle(case: &ExecCase, obs: &mut Obs) -> Result<(), Violation> {
-    let (mr, mstate, mgas, executed) = run_model(case, BUDGET, CAP);
+    let (mr, mstate, mgas, executed, model_calls) = run_model_calls(case, BUDGET, CAP);
     match &mr {
         RunResult::Unspec(r) => {
             obs.skip(r);
@@ -100,12 +100,15 @@ pub fn oracle(case: &ExecCase, obs: &mut Obs) -> Result<(), Violation> {
             } else {
                 obs.label("other-error");
             }
-            // bounded work: the cost function is never asked more often than limit*(breadth+1)+1 when all costs >= 1
-            if case.costs.0.iter().all(|c| *c >= 1) && case.limit < 1_000_000 {
-                let (count, _) = out.audit;
-                let bound = (case.limit as u128 + 1) * (CAP as u128 + 1);
-                ensure!((count as u128) <= bound, "gas:unbounded-work", "{count} operations were costed under limit {}", case.limit);
-            }
+            // bounded work: nothing beyond what the sequential semantics attempt is ever costed (a child stops at
+            // the first op it cannot pay for; the VM may stop other children early, never late)
+            let (count, _) = out.audit;
+            ensure!(
+                count <= model_calls,
+                "gas:work-beyond-limit",
+                "{count} operations were costed (limit {}), the sequential semantics attempt only {model_calls}: work continued after the budget was exhausted",
+                case.limit
+            );
         }
         (RunResult::Ok { gas, .. }, Err((ix, re))) => {
             return Err(viol!(
